@@ -542,7 +542,10 @@ pub fn miri_c16(seed: u64, n: u64) {
         ops.push(Op::TilemapTile(0, 0, 0x8000_0000, 1));
         r.shuffle(&mut ops);
         ops.truncate(10);
-        let memo: Vec<Out> = ops.iter().map(|op| exec_out(&f, op, &costs)).collect();
+        // The reference comes from a *separate* load of the same bytes, so that the sprite the
+        // threads share is still untouched: lazily initialised state is then first used concurrently.
+        let f_ref = AsepriteFile::read(&bytes[..]).expect("tiny sprite must load");
+        let memo: Vec<Out> = ops.iter().map(|op| exec_out(&f_ref, op, &costs)).collect();
         let t = 2 + r.usize_below(2);
         let fr = &f;
         let opsr = &ops;
@@ -572,7 +575,7 @@ pub fn miri_c16(seed: u64, n: u64) {
         // ping-pong: each thread renders "its" frame over and over while the others render
         // different ones — the access pattern under which a shared render cache goes wrong
         if nf >= 2 {
-            let want: Vec<Out> = (0..nf).map(|fr| exec_out(&f, &Op::FrameImage(fr), &costs)).collect();
+            let want: Vec<Out> = (0..nf).map(|fr| exec_out(&f_ref, &Op::FrameImage(fr), &costs)).collect();
             let wantr = &want;
             std::thread::scope(|s| {
                 for k in 0..2u32 {
@@ -707,14 +710,25 @@ pub fn stress_c16(ctx: &crate::props::Ctx, i: u64, threads: usize, iters: usize)
         ops.push(Op::VisibleChain(la));
     }
     ops.extend([Op::Meta, Op::Palette, Op::Tags, Op::Slices, Op::Tilesets, Op::TilesetImage(0), Op::TilemapSweep(0, 0), Op::TilemapImage(0, 0)]);
-    let memo: Vec<Out> = ops.iter().map(|op| exec_out(&f, op, &costs)).collect();
+    // reference from a separate load: the shared sprite is first touched by the threads themselves
+    let f_ref = match catch_unwind(AssertUnwindSafe(|| load(&base.bytes, Wrapper::Cursor, &ReaderPlan::default(), None, false, false).0)) {
+        Ok(l) => match l.result {
+            Ok(f) => f,
+            Err(_) => return None,
+        },
+        Err(_) => return None,
+    };
+    let memo: Vec<Out> = ops.iter().map(|op| exec_out(&f_ref, op, &costs)).collect();
     let bad: Mutex<Option<String>> = Mutex::new(None);
     let stop = std::sync::atomic::AtomicBool::new(false);
+    let gate = std::sync::Barrier::new(threads);
     std::thread::scope(|s| {
         for k in 0..threads {
             let (fr, opsr, memor, costsr, badr, stopr, descr) = (&f, &ops, &memo, &costs, &bad, &stop, &base.desc);
             let mut tr = Rng::new(rseed ^ (k as u64 + 1).wrapping_mul(0x9E37));
+            let gate = &gate;
             s.spawn(move || {
+                gate.wait();
                 for _ in 0..iters {
                     if stopr.load(std::sync::atomic::Ordering::Relaxed) {
                         return;
@@ -836,10 +850,17 @@ fn sibling_of(plan: &Plan, image: &[u8], r: &mut Rng) -> (Vec<u8>, String) {
             (b, format!("{}.{} = {:#x}", f.chunk, f.name, v))
         }
         _ => {
-            let pay: Vec<&format::Field> = m.fields.iter().filter(|f| matches!(f.name, "rgba" | "rgb" | "raw-pixels")).collect();
+            let pay: Vec<&format::Field> = m.fields.iter().filter(|f| matches!(f.name, "rgba" | "rgb" | "raw-pixels" | "string-bytes")).collect();
             if let Some(f) = pay.first().map(|_| *r.pick(&pay)) {
                 let off = f.off + r.usize_below(f.width.max(1));
-                b[off] = b[off].wrapping_add(1 + r.below(60) as u8) & 0x3f;
+                if f.name == "string-bytes" {
+                    // another letter in a name / text: same shape, same colours, different strings
+                    if b[off] < 0x80 {
+                        b[off] = b'a' + (b[off].wrapping_add(7) % 26);
+                    }
+                } else {
+                    b[off] = b[off].wrapping_add(1 + r.below(60) as u8) & 0x3f;
+                }
                 (b, format!("one byte of {}.{} changed", f.chunk, f.name))
             } else {
                 (plan.base.clone(), "the unfaulted base file".into())
